@@ -1,83 +1,94 @@
-(* Proofs about Lexer/Model.v (property C09). *)
+(* Top file of the Lexer area (property C09; reused by C10a): re-exports the development and states the final
+   lemmas under stable names.  Props/C09.v only restates them.
+
+     Lexer/Wf.v       anchors, token well-formedness, stock lexer, loop invariant of parse_template, termination
+     Lexer/Scan.v     the scan of _detailed_tag_parser = first percent-brace outside quoted strings
+     Lexer/Restart.v  restart lemma; parse_template = stock when every quoted tag closes where stock closes it
+     Lexer/OnePass.v  parse_template = the one-pass reference lexer spec_lex; first difference with stock *)
 From Coq Require Import String.
-From DJC Require Import Lib.Base Lexer.Model.
-From DJC Require Gen.C09.
-
-(* ---------- anchors: the source constants the hand matchers were written for ---------- *)
-Example tag_re_anchor : Gen.C09.tag_re_pattern = s2n "({%.*?%}|{{.*?}}|{#.*?#})"%string.
-Proof. reflexivity. Qed.
-Example tag_delims_anchor :
-  Gen.C09.tag_delims = map s2n ["{%"; "%}"; "{{"; "}}"; "{#"; "#}"]%string.
-Proof. reflexivity. Qed.
-Example take_until_anchor :
-  Gen.C09.take_until_patterns =
-  map s2n ["(?:\\.|[^'])*"; "(?:\\.|[^""])*"; "[^'""]*"; "[^'""%]*"]%string.
-Proof. reflexivity. Qed.
-Example py_isspace_anchor : Gen.C09.py_space_chars = py_space_chars.
-Proof. reflexivity. Qed.
-Example token_type_anchor :
-  Gen.C09.token_type_values = map toktype_code [TText; TVar; TBlock; TComment].
-Proof. reflexivity. Qed.
+From DJC Require Export Lib.Base Lexer.Model Lexer.Wf Lexer.Restart.
+From DJC Require Export Lexer.Scan Lexer.OnePass.
 
 (* ====================================================================================== *)
-(* list / string basics                                                                   *)
+(* str.strip keeps exactly the characters between the surrounding white space              *)
 (* ====================================================================================== *)
-Lemma count_sym_app c a b : count_sym c (a ++ b) = (count_sym c a + count_sym c b)%N.
+Lemma lstrip_decomp l : exists h, l = h ++ lstrip l /\ forall c, In c h -> py_isspace c = true.
 Proof.
-  induction a as [|x a IH]; cbn [count_sym app]; [reflexivity|]. rewrite IH. lia.
+  induction l as [|c l [h [IH Sp]]]; [exists []; split; [reflexivity|intros c []]|].
+  cbn [lstrip]. destruct (py_isspace c) eqn:E.
+  - exists (c :: h). split; [cbn [app]; f_equal; exact IH|]. intros x [X|X]; [subst; exact E|apply Sp; exact X].
+  - exists []. split; [reflexivity|intros x []].
 Qed.
 
-Lemma count_nl_app a b : count_nl (a ++ b) = count_nl a + count_nl b.
-Proof. unfold count_nl. rewrite count_sym_app. lia. Qed.
-
-Lemma firstn_add {A} (a b : nat) (s : list A) :
-  firstn (a + b) s = firstn a s ++ firstn b (skipn a s).
+Lemma strip_decomp l : exists h t, l = h ++ strip l ++ t /\
+  (forall c, In c h -> py_isspace c = true) /\ (forall c, In c t -> py_isspace c = true).
 Proof.
-  revert s; induction a as [|a IH]; intros s; [reflexivity|].
-  destruct s as [|x s]; cbn [Nat.add firstn skipn app].
-  - rewrite firstn_nil. reflexivity.
-  - rewrite IH. reflexivity.
+  destruct (lstrip_decomp l) as [h [Hl Sh]]. destruct (lstrip_decomp (rev (lstrip l))) as [g [Hr Sg]].
+  exists h, (rev g). split; [|split; [exact Sh|]].
+  - unfold strip, rstrip. rewrite <- rev_app_distr, <- Hr, rev_involutive. exact Hl.
+  - intros c I. apply Sg. apply in_rev. exact I.
 Qed.
 
-Lemma count_nl_firstn_add a b s :
-  count_nl (firstn (a + b) s) = count_nl (firstn a s) + count_nl (firstn b (skipn a s)).
-Proof. rewrite firstn_add, count_nl_app. reflexivity. Qed.
-
-Lemma skipn_skipn {A} (x y : nat) (l : list A) : skipn x (skipn y l) = skipn (y + x) l.
+Lemma space_not_quote c : py_isspace c = true -> is_quote c = false.
 Proof.
-  revert l; induction y as [|y IH]; intros l; [reflexivity|].
-  destruct l as [|a l]; cbn [Nat.add skipn]; [apply skipn_nil|apply IH].
+  intros H. destruct (is_quote c) eqn:Q; [|reflexivity]. unfold is_quote in Q.
+  apply orb_true_iff in Q as [Q|Q]; apply N.eqb_eq in Q; subst; vm_compute in H; discriminate.
 Qed.
 
-Lemma slice_skipn s i a b : slice (skipn i s) a b = slice s (i + a) (i + b).
+Lemma existsb_false_iff {A} (P : A -> bool) l : existsb P l = false <-> forall x, In x l -> P x = false.
 Proof.
-  unfold slice. rewrite skipn_skipn. replace (i + b - (i + a)) with (b - a) by lia. reflexivity.
+  split.
+  - intros H x I. destruct (P x) eqn:E; [|reflexivity].
+    assert (X : existsb P l = true) by (apply existsb_exists; exists x; split; assumption). congruence.
+  - intros H. destruct (existsb P l) eqn:E; [|reflexivity].
+    apply existsb_exists in E as [x [I Px]]. rewrite (H x I) in Px. discriminate.
 Qed.
 
-Lemma slice_len s a n : slice s a (a + n) = firstn n (skipn a s).
-Proof. unfold slice. replace (a + n - a) with n by lia. reflexivity. Qed.
-
-Lemma skipn_nil_length {A} n (s : list A) : skipn n s = [] -> n <= length s -> n = length s.
+Lemma no_quote_strip l : existsb is_quote (strip l) = false -> existsb is_quote l = false.
 Proof.
-  intros H L. assert (E : length (skipn n s) = 0) by (rewrite H; reflexivity).
-  rewrite skipn_length in E. lia.
+  intros H. destruct (strip_decomp l) as [h [t [E [Sh St]]]]. rewrite existsb_false_iff in *.
+  intros x I. rewrite E in I. apply in_app_or in I as [I|I]; [apply space_not_quote, Sh; exact I|].
+  apply in_app_or in I as [I|I]; [apply H; exact I|apply space_not_quote, St; exact I].
 Qed.
+
+Lemma in_strip x l : In x (strip l) -> In x l.
+Proof.
+  intros I. destruct (strip_decomp l) as [h [t [E _]]]. rewrite E. apply in_or_app. right. apply in_or_app. left. exact I.
+Qed.
+
+Lemma in_firstn {A} (x : A) n l : In x (firstn n l) -> In x l.
+Proof.
+  revert l; induction n as [|n IH]; intros l I; [destruct I|]. destruct l as [|y l]; [destruct I|].
+  destruct I as [E|I]; [left; exact E|right; apply IH; exact I].
+Qed.
+
+Lemma in_skipn {A} (x : A) n l : In x (skipn n l) -> In x l.
+Proof.
+  revert l; induction n as [|n IH]; intros l I; [exact I|]. destruct l as [|y l]; [destruct I|].
+  right. apply IH. exact I.
+Qed.
+
+Lemma in_slice x s a b : In x (slice s a b) -> In x s.
+Proof. unfold slice. intros I. apply in_firstn in I. apply in_skipn in I. exact I. Qed.
 
 (* ====================================================================================== *)
-(* token well-formedness w.r.t. a source: the three local clauses of the property          *)
+(* C09, clause by clause                                                                   *)
 (* ====================================================================================== *)
-Definition opener (ty : toktype) : str :=
-  match ty with
-  | TText => [] | TVar => [c_lbrace; c_lbrace] | TBlock => [c_lbrace; c_pct] | TComment => [c_lbrace; c_hash]
-  end.
-Definition closer (ty : toktype) : str :=
-  match ty with
-  | TText => [] | TVar => [c_rbrace; c_rbrace] | TBlock => [c_pct; c_rbrace] | TComment => [c_hash; c_rbrace]
-  end.
 
-Definition tok_wf (s : str) (t : tok) : Prop :=
-  tstart t < tend t /\ tend t <= length s /\
-  tline t = 1 + count_nl (firstn (tstart t) s) /\
+(* ---- 1. token spans are non-empty, contiguous from 0 to len(source), and concatenate to the source ---- *)
+Lemma spans_partition : forall d s toks, parse_template d s = POk toks ->
+  chain 0 toks (length s) /\
+  Forall (fun t => tstart t < tend t <= length s) toks /\
+  concat (map (fun t => slice s (tstart t) (tend t)) toks) = s.
+Proof.
+  intros d s toks H. destruct (parse_template_wf d s toks H) as [F C]. split; [exact C|]. split.
+  - eapply Forall_impl; [|exact F]. intros t [A [B _]]. split; assumption.
+  - rewrite (chain_concat s toks 0 (length s) F C). apply slice_all.
+Qed.
+
+(* ---- 2. TEXT: contents = span.  VAR / BLOCK / COMMENT: the span starts and ends with the type's delimiters and
+        the contents are the span without the two delimiters, stripped (Python str.strip) ---- *)
+Lemma contents_eq_span : forall d s toks t, parse_template d s = POk toks -> In t toks ->
   match ttype t with
   | TText => tcontents t = slice s (tstart t) (tend t)
   | ty => tstart t + 4 <= tend t /\
@@ -85,496 +96,186 @@ Definition tok_wf (s : str) (t : tok) : Prop :=
           slice s (tend t - 2) (tend t) = closer ty /\
           tcontents t = strip (slice s (tstart t + 2) (tend t - 2))
   end.
-
-Fixpoint chain (a : nat) (l : list tok) (b : nat) : Prop :=
-  match l with
-  | [] => a = b
-  | t :: r => tstart t = a /\ chain (tend t) r b
-  end.
-
-Lemma chain_app a l1 m l2 b : chain a l1 m -> chain m l2 b -> chain a (l1 ++ l2) b.
 Proof.
-  revert a; induction l1 as [|t l1 IH]; intros a H1 H2; cbn in *.
-  - subst. exact H2.
-  - destruct H1 as [E H1]. split; [exact E|]. eapply IH; eauto.
+  intros d s toks t H I. destruct (parse_template_wf d s toks H) as [F _].
+  rewrite Forall_forall in F. destruct (F t I) as [_ [_ [_ W]]]. exact W.
 Qed.
 
-Lemma chain_app_inv a l1 l2 b : chain a (l1 ++ l2) b -> exists m, chain a l1 m /\ chain m l2 b.
+(* ---- 3. lineno = 1 + number of newlines before the token's start ---- *)
+Lemma lineno_correct : forall d s toks t, parse_template d s = POk toks -> In t toks ->
+  tline t = 1 + count_nl (firstn (tstart t) s).
 Proof.
-  revert a; induction l1 as [|t l1 IH]; intros a H; cbn in *.
-  - exists a. split; [reflexivity|exact H].
-  - destruct H as [E H]. destruct (IH _ H) as [m [H1 H2]]. exists m. repeat split; assumption.
+  intros d s toks t H I. destruct (parse_template_wf d s toks H) as [F _].
+  rewrite Forall_forall in F. destruct (F t I) as [_ [_ [W _]]]. exact W.
 Qed.
 
-(* ====================================================================================== *)
-(* tag_re matcher                                                                          *)
-(* ====================================================================================== *)
-Lemma find_close_spec d c1 c2 s j : find_close d c1 c2 s = Some j ->
-  j + 2 <= length s /\ firstn 2 (skipn j s) = [c1; c2].
+(* the stock lexer has the same three properties, for every preset verbatim state (what the restart relies on) *)
+Lemma stock_lexer_partition : forall d v s,
+  chain 0 (django_lex_v d v s) (length s) /\
+  forall t, In t (django_lex_v d v s) ->
+    tstart t < tend t <= length s /\ tline t = 1 + count_nl (firstn (tstart t) s) /\
+    match ttype t with
+    | TText => tcontents t = slice s (tstart t) (tend t)
+    | ty => slice s (tstart t) (tstart t + 2) = opener ty /\ slice s (tend t - 2) (tend t) = closer ty /\
+            tcontents t = strip (slice s (tstart t + 2) (tend t - 2))
+    end.
 Proof.
-  revert j; induction s as [|x r IH]; intros j H; cbn [find_close] in H; [discriminate|].
-  destruct (N.eqb x c1 && match r with y :: _ => N.eqb y c2 | [] => false end) eqn:E.
-  - inversion H; subst. apply andb_true_iff in E as [E1 E2]. destruct r as [|y r']; [discriminate|].
-    apply N.eqb_eq in E1, E2. subst. cbn. split; [lia|reflexivity].
-  - destruct (negb d && N.eqb x c_nl); [discriminate|].
-    destruct (find_close d c1 c2 r) as [j'|] eqn:F; [|discriminate]. cbn in H. inversion H; subst.
-    destruct (IH j' eq_refl) as [L F2]. cbn [length skipn]. split; [lia|exact F2].
+  intros d v s. destruct (django_lex_v_wf d v s) as [F C]. split; [exact C|].
+  intros t I. rewrite Forall_forall in F. destruct (F t I) as [A [B [L W]]].
+  split; [split; assumption|]. split; [exact L|].
+  destruct (ttype t); [exact W|destruct W as [_ W]; exact W..].
 Qed.
 
-Lemma tag_at_spec d s len : tag_at d s = Some len ->
-  exists c1 c2, nth 0 s 0%N = c_lbrace /\ closer_of (nth 1 s 0%N) = Some (c1, c2) /\
-    4 <= len <= length s /\ firstn 2 (skipn (len - 2) s) = [c1; c2].
+(* ---- 4. where a block tag ends ---- *)
+(* _detailed_tag_parser: it returns a token iff the text after the opener has a percent-brace outside quoted
+   strings, the token ends at the first such, and otherwise the error is the one of the state the text ends in *)
+Lemma detailed_closes_at_first_unquoted_end : forall text ln st0,
+  (forall fixed, detailed text ln st0 = inr fixed <->
+     exists j, first_unquoted_close (skipn 2 text) j /\
+       fixed = mkTok TBlock (strip (firstn j (skipn 2 text))) st0 (st0 + (j + 4)) ln) /\
+  (forall e, detailed text ln st0 = inl e <->
+     (forall j, ~ (close_at (skipn 2 text) j /\ qstate_at (skipn 2 text) j = QOut)) /\
+     e = err_of_qstate (qrun QOut (skipn 2 text))).
 Proof.
-  intros H. destruct s as [|o [|k r]]; try discriminate. cbn [tag_at] in H.
-  destruct (N.eqb o c_lbrace) eqn:Eo; [|discriminate]. apply N.eqb_eq in Eo.
-  destruct (closer_of k) as [[c1 c2]|] eqn:Ek; [|discriminate].
-  destruct (find_close d c1 c2 r) as [j|] eqn:F; [|discriminate]. cbn in H. inversion H; subst len.
-  destruct (find_close_spec _ _ _ _ _ F) as [L F2].
-  exists c1, c2. cbn [nth length]. repeat split; try assumption; try lia.
+  intros text ln st0. rewrite detailed_as_find_uclose.
+  destruct (find_uclose QOut (skipn 2 text)) as [j|] eqn:F; split.
+  - intros fixed. split.
+    + intros H. inversion H. exists j. split; [apply find_uclose_some; exact F|reflexivity].
+    + intros [j' [Fj E]]. apply find_uclose_complete in Fj. unfold first_unquoted_close in Fj.
+      rewrite F in Fj. inversion Fj; subst. reflexivity.
+  - intros e. split; [discriminate|]. intros [N _]. exfalso. apply find_uclose_some in F.
+    destruct F as [U _]. exact (N j U).
+  - intros fixed. split; [discriminate|]. intros [j [Fj _]]. apply find_uclose_complete in Fj.
+    unfold first_unquoted_close in Fj. congruence.
+  - intros e. split.
+    + intros H. inversion H. split; [|reflexivity]. intros j U. exact (find_uclose_none _ _ F j U).
+    + intros [_ E]. subst e. reflexivity.
 Qed.
 
-Lemma text_run_bounds d s : s <> [] -> tag_at d s = None -> 1 <= text_run d s <= length s.
+Lemma pcons_ok t r toks : pcons t r = POk toks -> exists l, r = POk l /\ toks = t :: l.
+Proof. destruct r as [l| |]; intros H; try discriminate. inversion H. exists l. split; reflexivity. Qed.
+
+Lemma spec_go_block_close d s0 : forall f v s pos line toks,
+  s = skipn pos s0 -> spec_go f d v s pos line = POk toks ->
+  Forall (fun t => ttype t = TBlock -> first_unquoted_close (tok_body s0 t) (close_index t)) toks.
 Proof.
-  intros Hne Hn. destruct s as [|c r]; [congruence|]. cbn [text_run]. rewrite Hn.
-  assert (text_run d r <= length r).
-  { clear. induction r as [|x r IH]; cbn [text_run length]; [lia|].
-    destruct (tag_at d (x :: r)); lia. }
-  cbn [length]. lia.
+  induction f as [|f IH]; intros v s pos line toks Hs H.
+  - inversion H. constructor.
+  - destruct s as [|c r] eqn:Es; [inversion H; constructor|]. rewrite <- Es in *.
+    assert (Hne : s <> []) by (rewrite Es; discriminate).
+    rewrite spec_go_unfold in H by exact Hne.
+    assert (Body : skipn (pos + 2) s0 = skipn 2 s) by (rewrite Hs; symmetry; apply skipn_skipn).
+    assert (Rec : forall n, skipn n s = skipn (pos + n) s0) by (intros n; rewrite Hs; apply skipn_skipn).
+    destruct (tag_at d s) as [len|] eqn:T.
+    + destruct (create_token v (firstn len s) pos line) as [t v'] eqn:CT.
+      destruct (create_token_spec _ _ _ _ _ _ _ _ T CT) as [L [Hst [Hen [Hln Hc]]]].
+      destruct (is_broken t) eqn:Bt.
+      * destruct (find_uclose QOut (skipn 2 s)) as [j|] eqn:Fu; [|discriminate].
+        apply pcons_ok in H as [l [Hr Et]]. subst toks. constructor.
+        -- intros _. unfold tok_body, close_index. cbn [tstart tend]. rewrite Body.
+           replace (pos + (j + 4) - pos - 4) with j by lia. apply find_uclose_some. exact Fu.
+        -- exact (IH _ _ _ _ _ (Rec (j + 4)) Hr).
+      * apply pcons_ok in H as [l [Hr Et]]. subst toks. constructor; [|exact (IH _ _ _ _ _ (Rec len) Hr)].
+        intros Ty. pose proof (create_token_block _ _ _ _ _ _ CT Ty) as K. rewrite nth1_firstn in K by lia.
+        destruct (tag_at_block _ _ _ T K) as [j0 [Ej Fc]].
+        destruct Hc as [[Hty _]|[_ [_ [_ Hct]]]]; [congruence|].
+        unfold is_broken in Bt. rewrite Ty, Hct in Bt. apply no_quote_strip in Bt.
+        unfold tok_body, close_index. rewrite Hst, Hen, Body. replace (pos + len - pos - 4) with j0 by lia.
+        replace (len - 4) with j0 in Bt by lia.
+        destruct (find_close_spec _ _ _ _ _ Fc) as [_ C].
+        split; [split; [exact C|unfold qstate_at; apply qrun_no_quote; exact Bt]|].
+        intros i Hi [Ci _]. exact (find_close_first _ _ _ _ _ Fc i Hi Ci).
+    + apply pcons_ok in H as [l [Hr Et]]. subst toks. constructor; [intros Ty; discriminate|].
+      exact (IH _ _ _ _ _ (Rec _) Hr).
 Qed.
 
-Lemma inner_firstn len s : 4 <= len <= length s -> inner (firstn len s) = firstn (len - 4) (skipn 2 s).
+(* every BLOCK token of the patched stream ends at the first percent-brace, counted from its opener, that lies
+   outside quoted strings *)
+Lemma closes_at_first_unquoted_end : forall d s toks t, parse_template d s = POk toks -> In t toks ->
+  ttype t = TBlock ->
+  (close_at (tok_body s t) (close_index t) /\ qstate_at (tok_body s t) (close_index t) = QOut) /\
+  forall i, i < close_index t -> ~ (close_at (tok_body s t) i /\ qstate_at (tok_body s t) i = QOut).
 Proof.
-  intros L. unfold inner. rewrite firstn_length_le by lia.
-  rewrite skipn_firstn_comm, firstn_firstn. f_equal. lia.
+  intros d s toks t H I Ty. rewrite parse_template_eq_spec in H. unfold spec_lex in H.
+  pose proof (spec_go_block_close d s (length s) None s 0 1 toks eq_refl H) as F. rewrite Forall_forall in F.
+  exact (F t I Ty).
 Qed.
 
-Lemma nth1_firstn len (s : str) : 2 <= len -> nth 1 (firstn len s) 0%N = nth 1 s 0%N.
+(* ---- 5. identical to stock ---- *)
+(* no block tag of the stock token stream contains a quote character => identical streams *)
+Lemma eq_stock_when_no_quote : forall d s,
+  (forall t, In t (django_lex d s) -> ttype t = TBlock -> existsb is_quote (tcontents t) = false) ->
+  parse_template d s = POk (django_lex d s).
 Proof.
-  intros L. destruct len as [|[|len]]; try lia. destruct s as [|a [|b s]]; reflexivity.
+  intros d s H. apply eq_stock_no_broken. apply Forall_forall. intros t I. unfold is_broken.
+  destruct (ttype t) eqn:Ty; try reflexivity. apply H; assumption.
 Qed.
 
-Definition tag_type (k : N) : toktype :=
-  if N.eqb k c_pct then TBlock else if N.eqb k c_lbrace then TVar else TComment.
-
-Lemma closer_of_tag_type k c1 c2 : closer_of k = Some (c1, c2) ->
-  [c_lbrace; k] = opener (tag_type k) /\ [c1; c2] = closer (tag_type k) /\ tag_type k <> TText.
+(* in particular: no quote character in the source at all *)
+Lemma eq_stock_when_no_quote_char : forall d s,
+  existsb is_quote s = false -> parse_template d s = POk (django_lex d s).
 Proof.
-  unfold closer_of, tag_type. intros H.
-  destruct (N.eqb k c_pct) eqn:E1; [apply N.eqb_eq in E1; inversion H; subst; repeat split; discriminate|].
-  destruct (N.eqb k c_lbrace) eqn:E2; [apply N.eqb_eq in E2; inversion H; subst; repeat split; discriminate|].
-  destruct (N.eqb k c_hash) eqn:E3; [apply N.eqb_eq in E3; inversion H; subst; repeat split; discriminate|].
-  discriminate.
+  intros d s H. apply eq_stock_when_no_quote. intros t I Ty.
+  destruct (django_lex_v_wf d None s) as [F _]. rewrite Forall_forall in F. destruct (F t I) as [_ [_ [_ W]]].
+  rewrite Ty in W. destruct W as [_ [_ [_ W]]]. rewrite existsb_false_iff in *. intros x Ix.
+  apply H. rewrite W in Ix. apply in_strip in Ix. apply in_slice in Ix. exact Ix.
 Qed.
 
-Lemma firstn2_nth (s : str) : 2 <= length s -> firstn 2 s = [nth 0 s 0%N; nth 1 s 0%N].
-Proof. destruct s as [|a [|b s]]; cbn [length]; try lia. reflexivity. Qed.
-
-(* what create_token returns for a tag_re match *)
-Lemma create_token_spec d v s len pos line t v' :
-  tag_at d s = Some len -> create_token v (firstn len s) pos line = (t, v') ->
-  4 <= len <= length s /\ tstart t = pos /\ tend t = pos + len /\ tline t = line /\
-  ( (ttype t = TText /\ tcontents t = firstn len s) \/
-    (ttype t <> TText /\ firstn 2 s = opener (ttype t) /\
-     firstn 2 (skipn (len - 2) s) = closer (ttype t) /\
-     tcontents t = strip (firstn (len - 4) (skipn 2 s))) ).
+(* every quoted block tag of the stock stream is closed by the quote-aware scan where stock closes it
+   (decidable form [closes_as_stockb], Lexer/Restart.v) => identical streams *)
+Lemma eq_stock_when_quotes_closed : forall d s,
+  (forall t, In t (django_lex d s) -> is_broken t = true -> closes_as_stockb s t = true) ->
+  parse_template d s = POk (django_lex d s).
 Proof.
-  intros T C. destruct (tag_at_spec _ _ _ T) as [c1 [c2 [H0 [Hk [L Hc]]]]].
-  destruct (closer_of_tag_type _ _ _ Hk) as [Ho [Hcl Hnt]].
-  unfold create_token in C. rewrite nth1_firstn in C by lia. rewrite inner_firstn in C by lia.
-  rewrite firstn_length_le in C by lia.
-  assert (Hop : firstn 2 s = opener (tag_type (nth 1 s 0%N))).
-  { rewrite firstn2_nth by lia. rewrite H0. exact Ho. }
-  rewrite Hcl in Hc.
-  split; [exact L|].
-  unfold tag_type in *.
-  assert (HL : forall ty, ty <> TText -> firstn 2 s = opener ty -> firstn 2 (skipn (len - 2) s) = closer ty ->
-     ty = TText /\ strip (firstn (len - 4) (skipn 2 s)) = firstn len s \/
-     ty <> TText /\ firstn 2 s = opener ty /\ firstn 2 (skipn (len - 2) s) = closer ty /\
-     strip (firstn (len - 4) (skipn 2 s)) = strip (firstn (len - 4) (skipn 2 s))).
-  { intros ty A B D. right. repeat split; assumption. }
-  destruct (N.eqb (nth 1 s 0%N) c_pct) eqn:E1.
-  - destruct v as [name|].
-    + destruct (str_eqb _ name); inversion C; subst; cbn [tstart tend tline ttype tcontents];
-        (split; [reflexivity|split; [reflexivity|split; [reflexivity|]]]).
-      * apply HL; assumption.
-      * left. split; reflexivity.
-    + inversion C; subst; cbn [tstart tend tline ttype tcontents];
-        (split; [reflexivity|split; [reflexivity|split; [reflexivity|]]]). apply HL; assumption.
-  - destruct v as [name|].
-    + inversion C; subst; cbn [tstart tend tline ttype tcontents];
-        (split; [reflexivity|split; [reflexivity|split; [reflexivity|]]]). left. split; reflexivity.
-    + inversion C; subst; cbn [tstart tend tline ttype tcontents];
-        (split; [reflexivity|split; [reflexivity|split; [reflexivity|]]]).
-      destruct (N.eqb (nth 1 s 0%N) c_lbrace); apply HL; assumption.
+  intros d s H. apply eq_stock_closed. intros t I B. apply closes_as_stockb_iff. apply H; assumption.
 Qed.
 
-(* ====================================================================================== *)
-(* DebugLexer.tokenize: every token is well-formed w.r.t. the lexed string, tokens chain    *)
-(* ====================================================================================== *)
-Lemma lex_go_unfold f d v s pos line : s <> [] ->
-  lex_go (S f) d v s pos line =
-  match tag_at d s with
-  | Some len =>
-      let '(t, v') := create_token v (firstn len s) pos line in
-      t :: lex_go f d v' (skipn len s) (pos + len) (line + count_nl (firstn len s))
-  | None =>
-      mkTok TText (firstn (text_run d s) s) pos (pos + text_run d s) line
-        :: lex_go f d v (skipn (text_run d s) s) (pos + text_run d s)
-                  (line + count_nl (firstn (text_run d s) s))
-  end.
-Proof. intros H. destruct s; [congruence|reflexivity]. Qed.
-
-Lemma lex_go_wf s0 d : forall fuel v s pos line,
-  s = skipn pos s0 -> pos <= length s0 -> line = 1 + count_nl (firstn pos s0) -> length s <= fuel ->
-  Forall (tok_wf s0) (lex_go fuel d v s pos line) /\ chain pos (lex_go fuel d v s pos line) (length s0).
+(* declarative form: in every quoted block tag of the stock stream, the percent-brace that ends the tag for stock
+   Django lies outside the tag's quoted strings => identical streams *)
+Lemma eq_stock_when_stock_close_unquoted : forall d s,
+  (forall t, In t (django_lex d s) -> is_broken t = true -> qstate_at (tok_body s t) (close_index t) = QOut) ->
+  parse_template d s = POk (django_lex d s).
 Proof.
-  induction fuel as [|f IH]; intros v s pos line Hs Hp Hl Hf.
-  - assert (E0 : s = []) by (destruct s; [reflexivity|cbn in Hf; lia]).
-    rewrite E0 in Hs. symmetry in Hs. apply skipn_nil_length in Hs; [|assumption].
-    cbn. split; [constructor|assumption].
-  - destruct s as [|c r] eqn:Es.
-    + cbn. split; [constructor|]. symmetry in Hs. apply skipn_nil_length in Hs; assumption.
-    + rewrite <- Es in *. assert (Hlen : length s = length s0 - pos) by (rewrite Hs; apply skipn_length).
-      assert (Hne : s <> []) by (rewrite Es; discriminate).
-      rewrite lex_go_unfold by exact Hne.
-      (* common recursion step *)
-      assert (Step : forall len v', 1 <= len <= length s ->
-                Forall (tok_wf s0) (lex_go f d v' (skipn len s) (pos + len) (line + count_nl (firstn len s))) /\
-                chain (pos + len) (lex_go f d v' (skipn len s) (pos + len) (line + count_nl (firstn len s))) (length s0)).
-      { intros len v' L. apply IH.
-        - rewrite Hs. apply skipn_skipn.
-        - lia.
-        - rewrite Hl, Hs. rewrite count_nl_firstn_add. lia.
-        - rewrite skipn_length. lia. }
-      destruct (tag_at d s) as [len|] eqn:T.
-      * destruct (create_token v (firstn len s) pos line) as [t v'] eqn:CT.
-        destruct (create_token_spec _ _ _ _ _ _ _ _ T CT) as [L [Hst [Hen [Hln Hc]]]].
-        destruct (Step len v' ltac:(lia)) as [S1 S2].
-        split.
-        -- constructor; [|exact S1]. unfold tok_wf. rewrite Hst, Hen, Hln.
-           split; [lia|]. split; [lia|]. split; [exact Hl|].
-           destruct Hc as [[Hty Hct]|[Hty [Hop [Hcl Hct]]]].
-           ++ rewrite Hty, Hct, Hs. symmetry. apply slice_len.
-           ++ assert (G : 4 + pos <= pos + len /\
-                          slice s0 pos (pos + 2) = opener (ttype t) /\
-                          slice s0 (pos + len - 2) (pos + len) = closer (ttype t) /\
-                          tcontents t = strip (slice s0 (pos + 2) (pos + len - 2))).
-              { split; [lia|]. split; [rewrite slice_len, <- Hs; exact Hop|].
-                split.
-                - replace (pos + len) with ((pos + len - 2) + 2) at 2 by lia. rewrite slice_len.
-                  rewrite <- Hcl, Hs, skipn_skipn. f_equal. f_equal. lia.
-                - rewrite Hct. f_equal. unfold slice. rewrite Hs, skipn_skipn. f_equal. lia. }
-              destruct G as [G1 [G2 [G3 G4]]].
-              destruct (ttype t); [congruence| | |]; (split; [lia|split; [exact G2|split; [exact G3|exact G4]]]).
-        -- cbn [chain]. rewrite Hst, Hen. split; [reflexivity|exact S2].
-      * destruct (text_run_bounds d s Hne T) as [L1 L2].
-        destruct (Step (text_run d s) v ltac:(lia)) as [S1 S2].
-        split.
-        -- constructor; [|exact S1]. unfold tok_wf. cbn [tstart tend tline ttype tcontents].
-           split; [lia|]. split; [lia|]. split; [exact Hl|]. rewrite Hs. symmetry. apply slice_len.
-        -- cbn [chain tstart tend]. split; [reflexivity|exact S2].
+  intros d s H. apply eq_stock_closed. intros t I B. unfold closes_as_stock.
+  apply (closes_as_stock_iff_unquoted d None s t I (is_broken_block _ B)). exact (H t I B).
 Qed.
 
-Lemma django_lex_v_wf d v s :
-  Forall (tok_wf s) (django_lex_v d v s) /\ chain 0 (django_lex_v d v s) (length s).
-Proof. unfold django_lex_v. apply lex_go_wf; [reflexivity|lia|reflexivity|lia]. Qed.
+(* ---- 6. differs only by keeping a quoted percent-brace ---- *)
+(* (a) for every source the patched lexer computes the one-pass reference lexer: stock Django's loop in which a
+   BLOCK tag with a quote ends at the first percent-brace outside its quoted strings *)
+Lemma differs_only_by_quoted_close : forall d s, parse_template d s = spec_lex d s.
+Proof. exact parse_template_eq_spec. Qed.
 
-(* ====================================================================================== *)
-(* the scan of _detailed_tag_parser                                                        *)
-(* ====================================================================================== *)
-Lemma dfa_closed_spec : forall s m n k, dfa_run m s n = Closed k ->
-  exists j, k = n + j /\ j <= length s /\
-    ((m = MPct /\ j = 1 /\ firstn 1 s = [c_rbrace]) \/
-     (2 <= j /\ firstn 2 (skipn (j - 2) s) = [c_pct; c_rbrace])).
+(* (b) the first difference with the stock stream *)
+Lemma first_difference_is_quoted_close : forall d s,
+  parse_template d s = POk (django_lex d s) \/
+  exists pre b post, django_lex d s = pre ++ b :: post /\ is_broken b = true /\
+    Forall (fun t => is_broken t = true -> closes_as_stock s t) pre /\
+    qstate_at (tok_body s b) (close_index b) <> QOut /\
+    match parse_template d s with
+    | POk toks => exists fixed post', toks = pre ++ fixed :: post' /\
+        ttype fixed = TBlock /\ tstart fixed = tstart b /\ tline fixed = tline b /\ tend b < tend fixed /\
+        first_unquoted_close (tok_body s b) (close_index fixed)
+    | PErr _ => True
+    | POutOfFuel => False
+    end.
+Proof. exact first_difference_full. Qed.
+
+(* ---- 7. termination ---- *)
+Lemma terminates : forall d s,
+  parse_template d s <> POutOfFuel /\
+  forall k, pt_go (S (length s) + k) d s 0 0 None [] = parse_template d s.
 Proof.
-  induction s as [|c r IH]; intros m n k H; [destruct m; discriminate|].
-  (* any recursive call from a state other than MPct-entering *)
-  assert (Rec : forall m', m' <> MPct -> dfa_run m' r (S n) = Closed k ->
-     exists j, k = n + j /\ j <= length (c :: r) /\
-       ((m = MPct /\ j = 1 /\ firstn 1 (c :: r) = [c_rbrace]) \/
-        (2 <= j /\ firstn 2 (skipn (j - 2) (c :: r)) = [c_pct; c_rbrace]))).
-  { intros m' Hm' H'. destruct (IH _ _ _ H') as [j [E [L [[A _]|[B1 B2]]]]]; [congruence|].
-    exists (S j). split; [lia|]. split; [cbn [length]; lia|]. right. split; [lia|].
-    replace (S j - 2) with (S (j - 2)) by lia. exact B2. }
-  destruct m; cbn [dfa_run] in H.
-  - destruct (is_quote c); [apply (Rec (MQuote c)); [discriminate|exact H]|].
-    destruct (N.eqb c c_pct) eqn:E; [|apply (Rec MNormal); [discriminate|exact H]].
-    apply N.eqb_eq in E. destruct (IH _ _ _ H) as [j [Ek [L [[_ [A2 A3]]|[B1 B2]]]]].
-    + exists 2. split; [lia|]. split; [cbn [length]; destruct r; [discriminate|cbn [length]; lia]|].
-      right. split; [lia|]. cbn [Nat.sub skipn]. destruct r as [|y r]; [discriminate|].
-      cbn in A3. inversion A3. subst. reflexivity.
-    + exists (S j). split; [lia|]. split; [cbn [length]; lia|]. right. split; [lia|].
-      replace (S j - 2) with (S (j - 2)) by lia. exact B2.
-  - destruct (N.eqb c c_rbrace) eqn:E.
-    + apply N.eqb_eq in E. inversion H; subst. exists 1. split; [lia|]. split; [cbn [length]; lia|].
-      left. repeat split.
-    + destruct (is_quote c); [apply (Rec (MQuote c)); [discriminate|exact H]|
-                              apply (Rec MToQuote); [discriminate|exact H]].
-  - destruct (is_quote c); [apply (Rec (MQuote c)); [discriminate|exact H]|
-                            apply (Rec MToQuote); [discriminate|exact H]].
-  - destruct (N.eqb c q); [apply (Rec MNormal); [discriminate|exact H]|].
-    destruct (N.eqb c c_bslash); [apply (Rec (MEsc q)); [discriminate|exact H]|
-                                  apply (Rec (MQuote q)); [discriminate|exact H]].
-  - apply (Rec (MQuote q)); [discriminate|exact H].
+  intros d s. unfold parse_template. apply pt_go_fuel; [lia|reflexivity|lia].
 Qed.
 
-(* _detailed_tag_parser on text (which starts with the opener at absolute position st) *)
-Lemma detailed_spec text ln st fixed : detailed text ln st = inr fixed ->
-  exists n, 4 <= n <= length text /\ firstn 2 (skipn (n - 2) text) = [c_pct; c_rbrace] /\
-    fixed = mkTok TBlock (strip (slice text 2 (n - 2))) st (n + st) ln.
-Proof.
-  unfold detailed. intros H. destruct (dfa_run MNormal (skipn 2 text) 2) as [n|m] eqn:D; [|discriminate].
-  inversion H; subst fixed. destruct (dfa_closed_spec _ _ _ _ D) as [j [E [L [[A _]|[B1 B2]]]]]; [discriminate|].
-  rewrite skipn_length in L. exists n. split; [lia|]. split; [|reflexivity].
-  rewrite skipn_skipn in B2. replace (n - 2) with (2 + (j - 2)) by lia. exact B2.
-Qed.
-
-(* ====================================================================================== *)
-(* parse_template: shifting, splitting, the loop invariant                                  *)
-(* ====================================================================================== *)
-Lemma shift_tok_wf s i off t :
-  i <= length s -> off = count_nl (firstn i s) -> tok_wf (skipn i s) t -> tok_wf s (shift_tok i off t).
-Proof.
-  intros Hi Hoff [H1 [H2 [H3 H4]]]. rewrite skipn_length in H2.
-  unfold tok_wf, shift_tok. cbn [tstart tend tline ttype tcontents].
-  split; [lia|]. split; [lia|]. split.
-  - rewrite H3, Hoff. replace (tstart t + i) with (i + tstart t) by lia.
-    rewrite count_nl_firstn_add. lia.
-  - destruct (ttype t).
-    + rewrite H4, slice_skipn. f_equal; lia.
-    + destruct H4 as [A [B [D E]]]. split; [lia|]. rewrite slice_skipn in B, D, E.
-      split; [rewrite <- B; f_equal; lia|]. split; [rewrite <- D; f_equal; lia|].
-      rewrite E. f_equal. f_equal; lia.
-    + destruct H4 as [A [B [D E]]]. split; [lia|]. rewrite slice_skipn in B, D, E.
-      split; [rewrite <- B; f_equal; lia|]. split; [rewrite <- D; f_equal; lia|].
-      rewrite E. f_equal. f_equal; lia.
-    + destruct H4 as [A [B [D E]]]. split; [lia|]. rewrite slice_skipn in B, D, E.
-      split; [rewrite <- B; f_equal; lia|]. split; [rewrite <- D; f_equal; lia|].
-      rewrite E. f_equal. f_equal; lia.
-Qed.
-
-Lemma chain_shift i off a l b :
-  chain a l b -> chain (a + i) (map (shift_tok i off) l) (b + i).
-Proof.
-  revert a; induction l as [|t l IH]; intros a H; cbn in *; [lia|].
-  destruct H as [E H]. split; [lia|]. apply IH. exact H.
-Qed.
-
-Lemma split_broken_spec l g b : split_broken l = (g, b) ->
-  Forall (fun t => is_broken t = false) g /\
-  match b with
-  | None => l = g
-  | Some t => is_broken t = true /\ exists rest, l = g ++ t :: rest
-  end.
-Proof.
-  revert g b; induction l as [|t l IH]; intros g b H; cbn [split_broken] in H.
-  - inversion H; subst. split; [constructor|reflexivity].
-  - destruct (is_broken t) eqn:E.
-    + inversion H; subst. split; [constructor|]. split; [exact E|]. exists l. reflexivity.
-    + destruct (split_broken l) as [g' b'] eqn:S. inversion H; subst.
-      destruct (IH _ _ eq_refl) as [F M]. split; [constructor; assumption|].
-      destruct b as [t'|].
-      * destruct M as [Bt [rest Hr]]. split; [exact Bt|]. exists rest. rewrite Hr. reflexivity.
-      * rewrite M. reflexivity.
-Qed.
-
-(* the restarted lexer run, shifted to absolute coordinates *)
-Lemma restart_wf d v s i off :
+(* index_start strictly increases from one iteration of the while loop to the next *)
+Lemma index_start_increases : forall d v s i off good b rest fixed,
   i <= length s -> off = count_nl (firstn i s) ->
-  Forall (tok_wf s) (map (shift_tok i off) (django_lex_v d v (skipn i s))) /\
-  chain i (map (shift_tok i off) (django_lex_v d v (skipn i s))) (length s).
-Proof.
-  intros Hi Hoff. destruct (django_lex_v_wf d v (skipn i s)) as [F C]. split.
-  - apply Forall_forall. intros t Ht. apply in_map_iff in Ht as [t' [E Ht']]. subst t.
-    apply shift_tok_wf; try assumption. rewrite Forall_forall in F. apply F. exact Ht'.
-  - apply (chain_shift i off) in C. rewrite skipn_length in C.
-    replace (length s - i + i) with (length s) in C by lia. exact C.
-Qed.
-
-Lemma chain_le s a l b : Forall (tok_wf s) l -> chain a l b -> a <= b.
-Proof.
-  revert a; induction l as [|t l IH]; intros a F C; cbn in C; [lia|].
-  destruct C as [E C]. inversion F as [|? ? W F']; subst. apply IH in C; [|exact F'].
-  destruct W as [W _]. lia.
-Qed.
-
-Lemma is_broken_block t : is_broken t = true -> ttype t = TBlock.
-Proof. unfold is_broken. destruct (ttype t); congruence. Qed.
-
-(* what one round of the while loop establishes when it hands a broken token to the detailed parser *)
-Lemma round_wf d v s i off good b rest fixed :
-  i <= length s -> off = count_nl (firstn i s) ->
-  map (shift_tok i off) (django_lex_v d v (skipn i s)) = good ++ b :: rest ->
-  is_broken b = true ->
+  map (shift_tok i off) (django_lex_v d v (skipn i s)) = good ++ b :: rest -> is_broken b = true ->
   detailed (skipn (tstart b) s) (tline b) (tstart b) = inr fixed ->
-  Forall (tok_wf s) (good ++ [fixed]) /\ chain i (good ++ [fixed]) (tend fixed) /\
-  i < tend fixed <= length s /\ tstart fixed = tstart b /\ tline fixed = tline b /\ ttype fixed = TBlock /\
-  tstart b + 4 <= tend fixed /\
-  tline fixed - 1 + count_nl (slice s (tstart b) (tend fixed)) = count_nl (firstn (tend fixed) s).
+  i < tend fixed <= length s.
 Proof.
-  intros Hi Hoff E Hb D.
-  destruct (restart_wf d v s i off Hi Hoff) as [F C]. rewrite E in F, C.
-  apply Forall_app in F as [Fg Fb]. inversion Fb as [|? ? Wb _]; subst.
-  apply chain_app_inv in C as [m [Cg Cb]]. cbn [chain] in Cb. destruct Cb as [Em Cr]. subst m.
-  assert (Hib : i <= tstart b) by exact (chain_le s i good (tstart b) Fg Cg).
-  destruct Wb as [W1 [W2 [W3 W4]]]. rewrite (is_broken_block _ Hb) in W4. destruct W4 as [W4 [W5 [W6 W7]]].
-  destruct (detailed_spec _ _ _ _ D) as [n [Ln [Hc Hf]]]. rewrite skipn_length in Ln.
-  subst fixed. cbn [tstart tend tline ttype tcontents].
-  assert (Wf : tok_wf s {| ttype := TBlock; tcontents := strip (slice (skipn (tstart b) s) 2 (n - 2));
-                           tstart := tstart b; tend := n + tstart b; tline := tline b |}).
-  { unfold tok_wf. cbn [tstart tend tline ttype tcontents].
-    split; [lia|]. split; [lia|]. split; [exact W3|]. split; [lia|]. split; [exact W5|]. split.
-    - replace (n + tstart b) with ((n + tstart b - 2) + 2) at 2 by lia. rewrite slice_len.
-      rewrite skipn_skipn in Hc. change (closer TBlock) with [c_pct; c_rbrace]. rewrite <- Hc.
-      f_equal. f_equal. lia.
-    - rewrite slice_skipn. f_equal. f_equal; lia. }
-  split; [apply Forall_app; split; [exact Fg|constructor; [exact Wf|constructor]]|].
-  split; [eapply chain_app; [exact Cg|cbn; split; reflexivity]|].
-  split; [lia|]. split; [reflexivity|]. split; [reflexivity|]. split; [reflexivity|]. split; [lia|].
-  rewrite W3. replace (n + tstart b) with (tstart b + n) by lia. rewrite slice_len, count_nl_firstn_add. lia.
+  intros d v s i off good b rest fixed Hi Hoff E Hb D.
+  destruct (round_wf d v s i off good b rest fixed Hi Hoff E Hb D) as [_ [_ [L _]]]. exact L.
 Qed.
-
-Lemma pt_go_wf d s : forall fuel i off v acc toks,
-  pt_go fuel d s i off v acc = POk toks ->
-  i <= length s -> off = count_nl (firstn i s) -> Forall (tok_wf s) acc -> chain 0 acc i ->
-  Forall (tok_wf s) toks /\ chain 0 toks (length s).
-Proof.
-  induction fuel as [|f IH]; intros i off v acc toks H Hi Hoff Fa Ca; cbn [pt_go] in H; [discriminate|].
-  destruct (Nat.leb (length s) i) eqn:El.
-  - apply Nat.leb_le in El. inversion H; subst. assert (i = length s) by lia. subst i. split; assumption.
-  - apply Nat.leb_gt in El.
-    destruct (split_broken (map (shift_tok i off) (django_lex_v d v (skipn i s)))) as [good [b|]] eqn:S;
-      destruct (split_broken_spec _ _ _ S) as [_ M].
-    + destruct M as [Hb [rest E]].
-      destruct (detailed (skipn (tstart b) s) (tline b) (tstart b)) as [e|fixed] eqn:D; [discriminate|].
-      destruct (round_wf d v s i off good b rest fixed Hi Hoff E Hb D) as [F [C [L [_ [_ [_ [_ Ho]]]]]]].
-      eapply IH; [exact H|lia|exact Ho|apply Forall_app; split; assumption|
-                  eapply chain_app; eassumption].
-    + inversion H; subst toks. destruct (restart_wf d v s i off Hi Hoff) as [F C]. rewrite M in F, C.
-      split; [apply Forall_app; split; assumption|eapply chain_app; eassumption].
-Qed.
-
-Lemma parse_template_wf d s toks : parse_template d s = POk toks ->
-  Forall (tok_wf s) toks /\ chain 0 toks (length s).
-Proof.
-  unfold parse_template. intros H. eapply pt_go_wf; try exact H; try lia; try reflexivity; constructor.
-Qed.
-
-(* ---------- termination: the fuel of parse_template is never exhausted, more fuel changes nothing ---------- *)
-Lemma pt_go_fuel d s : forall fuel i off v acc,
-  i <= length s -> off = count_nl (firstn i s) -> length s - i < fuel ->
-  pt_go fuel d s i off v acc <> POutOfFuel /\
-  forall k, pt_go (fuel + k) d s i off v acc = pt_go fuel d s i off v acc.
-Proof.
-  induction fuel as [|f IH]; intros i off v acc Hi Hoff Hf; [lia|].
-  cbn [pt_go Nat.add].
-  destruct (Nat.leb (length s) i) eqn:El; [split; [discriminate|reflexivity]|].
-  apply Nat.leb_gt in El.
-  destruct (split_broken (map (shift_tok i off) (django_lex_v d v (skipn i s)))) as [good [b|]] eqn:S;
-    destruct (split_broken_spec _ _ _ S) as [_ M]; [|split; [discriminate|reflexivity]].
-  destruct M as [Hb [rest E]].
-  destruct (detailed (skipn (tstart b) s) (tline b) (tstart b)) as [e|fixed] eqn:D;
-    [split; [discriminate|reflexivity]|].
-  destruct (round_wf d v s i off good b rest fixed Hi Hoff E Hb D) as [F [C [L [_ [_ [_ [_ Ho]]]]]]].
-  apply IH; [lia|exact Ho|lia].
-Qed.
-
-(* ---------- identical to stock when no block tag contains a quote ---------- *)
-Lemma shift_tok_0 t : shift_tok 0 0 t = t.
-Proof. destruct t. unfold shift_tok. cbn. rewrite !Nat.add_0_r. reflexivity. Qed.
-
-Lemma map_shift_0 l : map (shift_tok 0 0) l = l.
-Proof. induction l as [|t l IH]; cbn [map]; [reflexivity|]. rewrite shift_tok_0, IH. reflexivity. Qed.
-
-Lemma split_broken_none l : Forall (fun t => is_broken t = false) l -> split_broken l = (l, None).
-Proof.
-  induction l as [|t l IH]; intros F; [reflexivity|]. inversion F; subst. cbn [split_broken].
-  rewrite H1, IH by assumption. reflexivity.
-Qed.
-
-Lemma eq_stock_no_broken d s :
-  Forall (fun t => is_broken t = false) (django_lex d s) -> parse_template d s = POk (django_lex d s).
-Proof.
-  intros F. unfold parse_template. cbn [pt_go]. destruct (Nat.leb (length s) 0) eqn:El.
-  - apply Nat.leb_le in El. destruct s; [reflexivity|cbn in El; lia].
-  - cbn [skipn]. fold (django_lex d s). rewrite map_shift_0, split_broken_none by exact F. reflexivity.
-Qed.
-
-(* ---------- the spans concatenate to the source ---------- *)
-Lemma slice_split s a m b : a <= m -> m <= b -> slice s a b = slice s a m ++ slice s m b.
-Proof.
-  intros H1 H2. unfold slice. replace (b - a) with ((m - a) + (b - m)) by lia.
-  rewrite firstn_add, skipn_skipn. replace (a + (m - a)) with m by lia. reflexivity.
-Qed.
-
-Lemma chain_concat s : forall l a b, Forall (tok_wf s) l -> chain a l b ->
-  concat (map (fun t => slice s (tstart t) (tend t)) l) = slice s a b.
-Proof.
-  induction l as [|t l IH]; intros a b F C; cbn in *.
-  - subst. unfold slice. rewrite Nat.sub_diag. reflexivity.
-  - destruct C as [E C]. inversion F as [|? ? W F']; subst.
-    rewrite (IH _ _ F' C). symmetry. apply slice_split.
-    + destruct W; lia.
-    + eapply chain_le; eassumption.
-Qed.
-
-Lemma slice_all s : slice s 0 (length s) = s.
-Proof. unfold slice. cbn [skipn]. rewrite Nat.sub_0_r. apply firstn_all. Qed.
-
-(* ====================================================================================== *)
-(* implementation scan vs specification scan                                               *)
-(* ====================================================================================== *)
-Definition qm (m : smode) : qmode :=
-  match m with MNormal => QNormal | MPct => QPct | MToQuote => QNormal | MQuote q => QQuote q | MEsc q => QEsc q end.
-Definition scan_sim (a : scan) (b : qscan) : Prop :=
-  match a, b with
-  | Closed n, QClosed n' => n = n'
-  | EndIn m, QEndIn m' => err_of_mode m = err_of_qmode m'
-  | _, _ => False
-  end.
-
-Lemma dfa_spec_sim : forall s m n, enters_toquote m s = false ->
-  scan_sim (dfa_run m s n) (spec_run (qm m) s n).
-Proof.
-  induction s as [|c r IH]; intros m n P.
-  - destruct m; reflexivity.
-  - destruct m; cbn [dfa_run spec_run qm enters_toquote] in *.
-    + destruct (is_quote c); [apply (IH (MQuote c)); exact P|].
-      destruct (N.eqb c c_pct); [apply (IH MPct); exact P|apply (IH MNormal); exact P].
-    + destruct (N.eqb c c_rbrace); [reflexivity|].
-      destruct (is_quote c); [apply (IH (MQuote c)); exact P|discriminate].
-    + discriminate.
-    + destruct (N.eqb c q); [apply (IH MNormal); exact P|].
-      destruct (N.eqb c c_bslash); [apply (IH (MEsc q)); exact P|apply (IH (MQuote q)); exact P].
-    + apply (IH (MQuote q)); exact P.
-Qed.
-
-Lemma detailed_eq_spec text ln st : enters_toquote MNormal (skipn 2 text) = false ->
-  detailed text ln st = detailed_q text ln st.
-Proof.
-  intros P. unfold detailed, detailed_q.
-  pose proof (dfa_spec_sim (skipn 2 text) MNormal 2 P) as S.
-  cbn [qm] in S. destruct (dfa_run MNormal (skipn 2 text) 2), (spec_run QNormal (skipn 2 text) 2); cbn in S;
-    try contradiction; congruence.
-Qed.
-
-Lemma pt_go_eq_spec d s : forall fuel i off v acc,
-  lone_pct_free_go fuel d s i off v = true ->
-  pt_go fuel d s i off v acc = pt_go_spec fuel d s i off v acc.
-Proof.
-  induction fuel as [|f IH]; intros i off v acc G; [reflexivity|].
-  cbn [pt_go pt_go_spec lone_pct_free_go] in *. destruct (Nat.leb (length s) i); [reflexivity|].
-  destruct (split_broken _) as [good [b|]]; [|reflexivity].
-  apply andb_true_iff in G as [G1 G2]. apply negb_true_iff in G1.
-  rewrite <- detailed_eq_spec by exact G1.
-  destruct (detailed _ _ _); [reflexivity|apply IH; exact G2].
-Qed.
-
-(* the witness of the open finding: a percent sign outside strings, not followed by a closing brace *)
-Definition lone_pct_witness : str := s2n "{% a ""c"" %b %}"%string.
-Lemma lone_pct_refutes :
-  parse_template true lone_pct_witness = PErr EUntermTag /\
-  parse_template_spec true lone_pct_witness = POk (django_lex true lone_pct_witness) /\
-  django_lex true lone_pct_witness =
-    [mkTok TBlock (s2n "a ""c"" %b"%string) 0 14 1].
-Proof. vm_compute. repeat split. Qed.
